@@ -47,6 +47,10 @@ TRUSTED = [
     "of the tree under check with sentinel values (extract/encoder_fields.py); C14_field_names / C14_roundtrip_file are stated over it; "
     "whole-life stream: histories over the model's full alphabet (hstep: pair-setup, real pair-verify exchanges, POST /pairings, "
     "config_changed, hash update, restart through the real state file) where the MODEL predicts the state after every restart",
+    "round 6: whole-life histories and a share of the state cases run with application-supplied encoders (harness/ref/encoders.py: checksummed, base64, "
+    "JSON envelope around the stock document) and, for whole-life histories, a live driver (real async_persist, stop / start of the same object); "
+    "after every step that changed the persisted state and whose background saves have finished the file must load (fresh driver, same encoder) to "
+    "the in-memory state",
     "multi-save stream: one real driver per history, driver.async_persist replaced by a synchronous call of the real "
     "driver.persist; the model side of that stream is persist/load of the in-memory state at each save (C14_history_roundtrip); "
     "whether and when the driver writes the file is otherwise C15's concern",
@@ -60,7 +64,7 @@ MAXCV = 65535
 
 def build_state(spec: Dict[str, Any]) -> c06.Real:
     """Run the history of `spec` on a fresh real driver and set config number / hash."""
-    real = c06.Real()
+    real = c06.Real(encoder=spec.get("encoder", "stock"))
     for op in spec["ops"]:
         if op["k"] == "restart":  # C06 histories may restart; a state case saves and reloads once, at its end
             continue
@@ -133,9 +137,9 @@ def behaviour(real: c06.Real, verifiers=(), saved_identity=None) -> Dict[str, An
     }
 
 
-def reload_real(path: str, via_add_accessory: bool):
-    """Fresh driver + State, loaded from `path` by the real code. Returns (Real | None, error)."""
-    fresh = c06.Real()
+def reload_real(path: str, via_add_accessory: bool, encoder: str = "stock"):
+    """Fresh driver + State (same encoder configuration), loaded from `path` by the real code. Returns (Real | None, error)."""
+    fresh = c06.Real(encoder=encoder)
     try:
         os.replace(path, fresh.path) if path != fresh.path else None
         if via_add_accessory:
@@ -164,7 +168,7 @@ def run_state_case(ctx: Optional[Ctx], spec: Dict[str, Any], idx: int = 0):
         beh_before = behaviour(real, vs, saved_identity)
         real.driver.persist()
         doc = real.file_doc()
-        fresh, err = reload_real(real.path, via_add_accessory=(idx % 16 == 0))
+        fresh, err = reload_real(real.path, via_add_accessory=(idx % 16 == 0 or bool(spec.get("via_add"))), encoder=spec.get("encoder", "stock"))
         if fresh is None:
             impl = {"doc": doc, "loaded": None}
             fail = ("C14:load-failed", f"loading the file just saved raised {err}")
@@ -180,7 +184,8 @@ def run_state_case(ctx: Optional[Ctx], spec: Dict[str, Any], idx: int = 0):
             if diff:
                 fail = ("C14:field-differs-after-reload:" + diff[0],
                         f"after save + load into a fresh state the field(s) {diff} differ "
-                        f"({len(before['paired'])} controllers, config_version {before['config_version']})")
+                        f"({len(before['paired'])} controllers, config_version {before['config_version']}"
+                        + (f", application-supplied {spec['encoder']} encoder, loaded through add_accessory" if spec.get("encoder", "stock") != "stock" else "") + ")")
             elif beh_before != beh_after:
                 what = [k for k in beh_before if beh_before[k] != beh_after[k]]
                 detail = ""
@@ -373,9 +378,18 @@ def gen_specs(ctx: Ctx) -> List[Dict[str, Any]]:
         s = spec([sA])
         s["accessories_hash"] = h
         specs.append(s)
+    from ref import encoders as refenc
+
+    for kind in refenc.KINDS[1:]:  # application-supplied encoders: saved by persist(), loaded by add_accessory and by load()
+        for via_add in (True, False):
+            s = spec([sA, c06.req(A, c06.add_body(c06.spell(rng, A + 3, 0), c06.key_of(rng), b"\x82"))])
+            s.update({"encoder": kind, "via_add": via_add, "config_version": 65535})
+            specs.append(s)
     n_boundary = len(specs)
     for _ in range(ctx.n(700, 8000)):
         specs.append(spec(c06.random_script(ctx)))
+        if rng.random() < 0.06:
+            specs[-1].update({"encoder": rng.choice(refenc.KINDS[1:]), "via_add": rng.random() < 0.7})
     ctx.stats.notes.append(f"{n_boundary} deterministic boundary states first, then {len(specs) - n_boundary} states from random C06 histories")
     return specs
 
@@ -735,8 +749,36 @@ def run_histories(ctx: Ctx):
 # Lean model (`hstep .restart` = loadJ (persistJ acc)) predicts the loaded state.
 
 
-def run_life_case(ops, start):
+def run_life_case(ops, start, cfg=None):
     fails = []
+    enc = (cfg or {}).get("encoder", "stock")
+
+    def on_change(i, real):
+        """The persisted state changed in step i and every background save has landed: the file on disk must load
+        (fresh driver, the same encoder) to exactly the in-memory state -- in the first run of a driver object and in
+        every later one."""
+        if fails:
+            return
+        memory = c06.full_state(real)
+        chk = None
+        try:
+            chk = c06.Real(state_file_from=real.path, encoder=enc)
+            chk.driver.load()
+            loaded = c06.full_state(chk)
+        except Exception as ex:  # noqa: BLE001
+            fails.append(("C14:load-failed", f"the state file as it is after step {i} ({ops[i]['k']}) does not load: {type(ex).__name__}", i))
+            return
+        finally:
+            if chk is not None:
+                chk.close()
+        dv0, dv1 = dict_view(memory), dict_view(loaded)
+        diff = [f for f in dv0 if dv0[f] != dv1[f]]
+        if diff:
+            fails.append(("C14:saved-file-stale:" + diff[0],
+                          f"step {i} ({ops[i]['k']}) changed the accessory state, all its saves have finished, but the file on disk loads to a state whose "
+                          f"{diff} differ from the in-memory state ({len(memory['paired'])} controllers"
+                          + (", the driver object had been stopped and started again" if any(o["k"] == "stop" for o in ops[:i]) else "")
+                          + (f", application-supplied {enc} encoder" if enc != "stock" else "") + "): a restart now would lose that change", i))
 
     def on_restart(i, before, after):
         if fails:
@@ -748,9 +790,10 @@ def run_life_case(ops, start):
         diff = [f for f in dv0 if dv0[f] != dv1[f]]
         if diff:
             fails.append(("C14:restart-state-differs:" + diff[0], f"restart at step {i}: the reloaded {diff} differ from the state before the restart "
-                          f"({len(before['paired'])} controllers, config_version {before['config_version']})", i))
+                          f"({len(before['paired'])} controllers, config_version {before['config_version']}"
+                          + (f", application-supplied {enc} encoder passed to the driver's constructor" if enc != "stock" else "") + ")", i))
 
-    ident, steps, _v, _abst, init = c06.run_real_sessions(ops, judge=False, start=start, on_restart=on_restart)
+    ident, steps, _v, _abst, init = c06.run_real_sessions(ops, judge=False, start=start, on_restart=on_restart, cfg=cfg, on_change=on_change)
     return ident, steps, init, (fails[0] if fails else None)
 
 
@@ -760,30 +803,33 @@ def run_whole_life(ctx: Ctx):
     st.notes.append(f"whole-life stream: {len(cases)} histories (pairing administration on real sessions, config_changed, hash updates, "
                     "restarts through the real state file, legacy starts); restart judged by 'state before == state after', model predicts the loaded state")
     lines, impl, scripts = [], [], []
-    for ops, start in cases:
+    for ops, start, cfg in cases:
         try:
-            ident, steps, init, fail = run_life_case(ops, start)
+            ident, steps, init, fail = run_life_case(ops, start, cfg)
         except Exception as ex:  # noqa: BLE001
             _observed_exception(ctx, "whole-life", {"ops": [o["k"] for o in ops]}, ex)
             continue
         scripts.append(ops)
-        lines.append(c06.sessions_model_line(ops, ident, init))
+        lines.append(c06.sessions_model_line(ops, ident, init, steps))
+        st.hit("outcome", f"life-config/encoder:{(cfg or {}).get('encoder', 'stock')}/{'live' if (cfg or {}).get('live') else 'objects'}")
         impl.append(steps)
         if fail:
             sig = fail[0]
             cut = ops[: fail[2] + 1]
 
-            def still(cand, sig=sig, start=start):
+            def still(cand, sig=sig, start=start, cfg=cfg):
                 try:
-                    f = run_life_case(cand, start)[3]
+                    f = run_life_case(c06.lifecycle_normal(cand), start, cfg)[3]
                     return f is not None and f[0] == sig
                 except Exception:  # noqa: BLE001
                     return False
 
-            small = c06.delta_min(cut, still)
-            f2 = run_life_case(small, start)[3]
-            ctx.fail(sig, (f2[1] if f2 and f2[0] == sig else fail[1]) + f" [whole-life history of {len(small)} step(s)]",
-                     {"kind": "life", "ops": small, "start": start})
+            small = c06.lifecycle_normal(c06.delta_min(cut, still))
+            f2 = run_life_case(small, start, cfg)[3]
+            if not (f2 and f2[0] == sig):
+                small, f2 = cut, fail
+            ctx.fail(sig, f2[1] + f" [whole-life history of {len(small)} step(s): {' '.join(o['k'] for o in small)}]",
+                     {"kind": "life", "ops": small, "start": start, "cfg": cfg})
             st.hit("outcome", "oracle:" + sig)
         tr = []
         for op, s_ in zip(ops, steps):
@@ -791,8 +837,10 @@ def run_whole_life(ctx: Ctx):
             if op["k"] == "restart":
                 st.hit("outcome", "life-restart/" + ("state-identical-checked" if s_.get("restarted") else "load-failed"))
                 tr.append(["restart", s_.get("restarted"), len(s_.get("acc", {}).get("paired", [])), len(s_.get("acc", {}).get("u2b", []))])
-            elif op["k"] in ("config", "hash"):
+            elif op["k"] in ("config", "hash", "start"):
                 tr.append([op["k"], s_.get("wrote"), min(s_["acc"]["config_version"], 3)])
+            elif op["k"] == "stop":
+                tr.append(["stop"])
             else:
                 tr.append([op["k"], len(s_["state"]["paired"]), s_.get("wrote")])
         st.case(["life", tr], True)
@@ -835,7 +883,7 @@ def run(ctx: Ctx):
                 small = minimise_state_spec(sp, fail[0], i)
                 f2 = run_state_case(ctx, small, i)[2]
                 ctx.fail(fail[0], (f2[1] if f2 and f2[0] == fail[0] else fail[1]) + f" [history of {len(small['ops'])} request(s), {len(small.get('verifiers', []))} verifying controller(s)]",
-                         {"kind": "state", "spec": small, "via_add_accessory": i % 16 == 0})
+                         {"kind": "state", "spec": small, "via_add_accessory": i % 16 == 0 or bool(small.get("via_add"))})
             st.hit("outcome", "oracle:" + fail[0])
         n = len(s["paired"])
         canon_ids = sum(1 for u, b in s["u2b"] if bytes.fromhex(b).decode("utf-8", "replace") != str(uuidlib.UUID(int=int(u))).upper())
@@ -942,13 +990,13 @@ def search(ctx: Ctx):
                 continue
             if fail:
                 record_history_failure(ctx, ops, fail)
-        for ops, start in c06.whole_life_scripts(ctx):
+        for ops, start, cfg in c06.whole_life_scripts(ctx):
             try:
-                fail = run_life_case(ops, start)[3]
+                fail = run_life_case(ops, start, cfg)[3]
             except Exception:  # noqa: BLE001
                 continue
             if fail:
-                ctx.fail(fail[0], fail[1], {"kind": "life", "ops": ops[: fail[2] + 1], "start": start})
+                ctx.fail(fail[0], fail[1], {"kind": "life", "ops": ops[: fail[2] + 1], "start": start, "cfg": cfg})
     finally:
         ctx.tier = saved
 
@@ -965,10 +1013,13 @@ def replay(ctx: Ctx, r):
             print(f"  {desc} -> save {'completed, file checked by a fresh load' if t[1] else 'not requested'}; controllers={t[2]} recorded ids={t[3]}")
         fail = fail[:2] if fail else None
     elif r.get("kind") == "life":
-        _ident, steps, _init, fail = run_life_case(r["ops"], r.get("start"))
+        if r.get("cfg"):
+            print("  configuration:", r["cfg"])
+        _ident, steps, _init, fail = run_life_case(r["ops"], r.get("start"), r.get("cfg"))
         for op, s_ in zip(r["ops"], steps):
             what = {k: (v if not isinstance(v, str) or len(v) < 24 else v[:16] + "...") for k, v in op.items()}
-            print(f"  {what} -> " + (f"restarted={s_.get('restarted')}" if op["k"] == "restart" else f"controllers={len((s_.get('state') or s_.get('acc'))['paired'])}"))
+            print(f"  {what} -> " + (f"restarted={s_.get('restarted')}" if op["k"] == "restart" else f"controllers={len((s_.get('state') or s_.get('acc'))['paired'])}")
+                  + (f" save-observed={s_['wrote']}" if "wrote" in s_ else ""))
         fail = fail[:2] if fail else None
     elif r.get("kind") == "doc":
         line, impl, fail = run_doc_case(r["doc"], r.get("doc_kind", "damaged"), r.get("expected"))
